@@ -1,4 +1,5 @@
 """Data directories: reading the chain of a store basis as raw JSON, and generating synthetic directories."""
+import copy
 import json
 import os
 import shutil
@@ -60,13 +61,14 @@ def _schema(t):
 class GenDir:
     """A generated data directory on disk (self.path) with the description of what was put in it."""
 
-    def __init__(self, rng, inconsistent=None, nbasis=None, with_index=True):
+    def __init__(self, rng, inconsistent=None, nbasis=None, with_index=True, repeat_shells=False):
         self.path = tempfile.mkdtemp(prefix='vdir')
         self.rng = rng
         self.files = {}
         self.bases = []          # (display names, basename, subdir, versions)
         self.used = {}           # element file / component file -> the elements some table takes from it
         self.inconsistent = inconsistent
+        self.repeat_shells = repeat_shells     # a component may repeat a shell another component of the element already has
         self.refs = {'molssi_bse_schema': _schema('references')}
         nbasis = nbasis or rng.randint(1, 3)
         fams = ['famA', 'famb'][:rng.randint(1, 2)]
@@ -132,6 +134,10 @@ class GenDir:
                 self._component(c_pol, zs2, 'orbital', ['ref%dpol' % i, 'ref%dmain' % i])
                 for z in zs2:
                     extra.setdefault(z, []).append(c_pol)
+                    if self.repeat_shells and rng.random() < 0.4:
+                        main_shells = self.files[c_main]['elements'][str(z)]['electron_shells']
+                        pol_shells = self.files[c_pol]['elements'][str(z)]['electron_shells']
+                        pol_shells.insert(rng.randint(0, len(pol_shells)), copy.deepcopy(rng.choice(main_shells)))
             if has_ecp:
                 zs3 = ecp_zs
                 if zs3:
